@@ -21,7 +21,7 @@ FUNCTIONS = ["ak.mtd_sql.SqlFilterCondition.make", "ak.mtd_sql.SqlFieldValCondit
              "ak.mtd_sql.SqlMethod._init_record_type", "ak.mtd_sql.SqlMethod.list", "ak.mtd_sql.SqlMethod.all", "ak.mtd_sql.SqlMethod.one",
              "ak.mtd_sql.SqlMethod.one_or_none"]
 BOUNDS = {
-    "quick": {"shapes": "42 condition-tree shapes: 1-3 top-level filters from comparisons (6 operators), IN/NOT IN/=/!= with list, tuple, set of 0..2 values, NULL tests, '='/'!=' None, "
+    "quick": {"shapes": "45 condition-tree shapes: 1-3 top-level filters from comparisons (6 operators), IN/NOT IN/=/!= with list, tuple, set of 0..2 values, NULL tests, '='/'!=' None, "
                         "LIKE/NOT LIKE, OR-groups of 0..2 operands (incl. nested IN and kwargs form), ignored None arguments, keyword filters, 2-item tuples, static text",
               "values": "int operands and integer cells: ALL ints or NULL (symbolic); text operands/cells: NULL or ANY string of length <= 2 (symbolic characters: quotes, wildcards, anything)", "table": "2 symbolic rows (1 symbolic row for shapes that involve the text column: WHERE is a per-row predicate)"},
 }
@@ -302,9 +302,18 @@ class StubCursor:
     def execute(self, sql, params=()):
         self.conn.calls.append((sql, list(params)))
         out = []
-        for r in self.conn.rows:
-            if eval_where(sql, params, {"id": r[0], "a": r[1], "b": r[2]}) is True:
-                out.append(r)
+        try:
+            for r in self.conn.rows:
+                if eval_where(sql, params, {"id": r[0], "a": r[1], "b": r[2]}) is True:
+                    out.append(r)
+        except TypeError:
+            # a bound value of another type than the column (only concrete values get here): outside the evaluator's
+            # fragment - ask real sqlite3
+            db = sqlite3.connect(":memory:")
+            db.execute("CREATE TABLE t (id INTEGER, a INTEGER, b TEXT)")
+            db.executemany("INSERT INTO t VALUES (?, ?, ?)", [tuple(r) for r in self.conn.rows])
+            out = [tuple(r) for r in db.execute(sql, list(params))]
+            db.close()
         self._rows = out
 
     def __iter__(self):
@@ -353,6 +362,8 @@ SHAPES = [
     [("cmp", "a", ">"), ("cmp", "a", "<")], [("cmp", "b", "="), ("or", [("cmp", "a", "="), ("cmp", "a", ">")])],
     [("or", [("cmp", "a", "="), ("cmp", "b", "=")]), ("cmp", "a", "!=")], [("or", [("in", "a", "IN", "list", 0), ("like", "LIKE")]), ("null", "b", "IS NOT NULL")],
     [("static", "a = id"), ("cmp", "a", ">")], [("or", [("static", "a = id"), ("cmpn", "b", "=")])],
+    [("or", [("cmp", "b", "="), ("cmp", "a", "<")])], [("or", [("cmp", "b", "<"), ("in", "a", "IN", "list", 1)]), ("cmp", "a", ">=")],
+    [("or", [("cmp", "a", ">"), ("cmp", "a", "=")])],
     [("in", "a", "IN", "list", 1), ("like", "NOT LIKE"), ("kw", "a")], [("or", [("or", [("cmp", "a", "<")]), ("cmp", "a", ">")]), ("kwn", "a")],
 ]
 
